@@ -1118,9 +1118,11 @@ class Processor:
                         ancestry + [(data, intmin)], pathseg)
                 else:
                     sliced_elements = []
-                    for slice_index in range(intmin, intmax):
+                    for slice_index in range(
+                        *slice(intmin, intmax).indices(len(data))
+                    ):
                         sliced_elements.append(NodeCoords(
-                            data[slice_index], data, intmin,
+                            data[slice_index], data, slice_index,
                             translated_path + "[{}]".format(slice_index),
                             ancestry + [(data, slice_index)], pathseg))
                     yield NodeCoords(
